@@ -360,6 +360,11 @@ def gen_scenario(rng, profile):
                              sorted(rng.sample(range(1, 248), rng.randint(1, 4)))])
         for u in hosted:
             units[str(u)] = gen_layout(rng)
+        unit_order = None
+        if len(hosted) > 1 and rng.random() < 0.4:
+            # the application filled its slaves dict in some other order than ascending
+            unit_order = list(hosted)
+            rng.shuffle(unit_order)
     opts = {}
     if rng.random() < 0.5:
         opts['ignore_missing_slaves'] = rng.random() < 0.5
@@ -478,6 +483,8 @@ def gen_scenario(rng, profile):
            'opts': opts, 'conns': conns, 'cpu_step': rng.choice([2e-6, 1e-5, 5e-5]),
            'sched': {'tail_seed': rng.randrange(1 << 30)},
            'settle': max(1.0, 4 * serial_timeout)}
+    if not single and unit_order:
+        scn['unit_order'] = unit_order
     if rng.random() < profile.get('dsfault_rate', 0.0):
         scn['dsfault'] = {'unit': rng.choice(sorted(units)), 'op': rng.choice(['validate', 'get', 'set', 'get', 'set']),
                           'at': rng.randint(1, 4)}
